@@ -14,6 +14,7 @@ package main
 
 import (
 	"bytes"
+	"context"
 	"crypto/sha256"
 	"encoding/binary"
 	"encoding/hex"
@@ -25,6 +26,7 @@ import (
 	"os/exec"
 	"sort"
 	"strings"
+	"time"
 
 	"github.com/google/uuid"
 	"go.dedis.ch/kyber/v3"
@@ -159,7 +161,7 @@ func getRosterID(ms []mem) string {
 		r := &onet.Roster{List: mkIdentities(ms)}
 		id, err := r.GetID()
 		if err != nil {
-			return "crash"
+			return "err" // a returned error is not a panic: kept apart
 		}
 		return hex.EncodeToString(id[:])
 	})
@@ -211,9 +213,33 @@ func treeRoster(in *input, t treeIn) (*onet.Roster, string) {
 		ro = onet.NewRoster(mkIdentities(in.Rosters[t.Ro]))
 	}()
 	if ro == nil {
+		// a roster that is legal by construction of the input must get an id: "bad"
+		// is written as an empty roster id, which the checker reports (clause 10);
+		// only for an illegal roster is "no roster" the expected situation
+		if rosterLegal(in.Rosters[t.Ro]) {
+			return nil, "bad"
+		}
 		return nil, ""
 	}
 	return ro, hex.EncodeToString(ro.ID[:])
+}
+
+// rosterLegal: non-empty, every key present, all server keys of one point type
+func rosterLegal(ms []mem) bool {
+	if len(ms) == 0 {
+		return false
+	}
+	for _, m := range ms {
+		if m.K < 0 || m.K/1000 != ms[0].K/1000 {
+			return false
+		}
+		for _, s := range m.S {
+			if s < 0 {
+				return false
+			}
+		}
+	}
+	return true
 }
 
 func newTreeID(in *input, t treeIn) string {
@@ -340,7 +366,7 @@ func serviceID(nameHex string) (first, second string) {
 	first = catch(func() string {
 		id, err := onet.ServiceFactory.Register(name, nil, nil)
 		if err != nil {
-			return "crash"
+			return "err"
 		}
 		return hex.EncodeToString(id[:])
 	})
@@ -428,19 +454,29 @@ func childMain() {
 	os.Stdout.Write(b)
 }
 
-func freshProcessIDs(raw []byte, n int) ([]string, bool) {
-	cmd := exec.Command(os.Args[0], "-c13child")
-	cmd.Stdin = bytes.NewReader(raw)
-	var out bytes.Buffer
-	cmd.Stdout = &out
-	if err := cmd.Run(); err != nil {
-		return nil, false
+// freshProcessIDs computes the ids once more in a new process.  A process that dies,
+// hangs (5 minutes) or answers with something else is tried again twice (load); after
+// that the failure IS the observation: every id of the group is reported as "err" for
+// this run, which no model outcome equals -- the case is evaluated, never discarded.
+func freshProcessIDs(raw []byte, n int) []string {
+	for attempt := 0; attempt < 3; attempt++ {
+		ctx, cancel := context.WithTimeout(context.Background(), 5*time.Minute)
+		cmd := exec.CommandContext(ctx, os.Args[0], "-c13child")
+		cmd.Stdin = bytes.NewReader(raw)
+		var out bytes.Buffer
+		cmd.Stdout = &out
+		err := cmd.Run()
+		cancel()
+		var ids []string
+		if err == nil && json.Unmarshal(out.Bytes(), &ids) == nil && len(ids) == n {
+			return ids
+		}
 	}
-	var ids []string
-	if err := json.Unmarshal(out.Bytes(), &ids); err != nil || len(ids) != n {
-		return nil, false
+	ids := make([]string, n)
+	for i := range ids {
+		ids[i] = "err"
 	}
-	return ids, true
+	return ids
 }
 
 // ---------------------------------------------------------------- oracle: Go's hash functions on candidate pre-images
@@ -502,7 +538,7 @@ func streamOf(n node, fixed bool, w *[]byte) {
 }
 
 func treeOracle(rid string, t node) (o orc) {
-	if hasNil(t) || rid == "" {
+	if hasNil(t) || rid == "" || rid == "bad" {
 		return orc{}
 	}
 	u := uuidOf(rid)
@@ -556,6 +592,8 @@ func coqRes(s string) string {
 		return "OCrash"
 	case "nil":
 		return "ONil"
+	case "err":
+		return "OErr"
 	}
 	return "(OId " + litHex(s) + ")"
 }
@@ -663,10 +701,7 @@ func run(raw json.RawMessage) lib.Case {
 	}
 	first := firstIDs(&in)
 	n := len(first)
-	fresh, freshOK := freshProcessIDs(raw, n)
-	if !freshOK {
-		return lib.Case{Discard: true}
-	}
+	fresh := freshProcessIDs(raw, n)
 	kt := &keyTab{pos: map[int]int{}}
 	for _, r := range in.Rosters {
 		for _, m := range r {
@@ -697,7 +732,9 @@ func run(raw json.RawMessage) lib.Case {
 			_, rid := treeRoster(&in, t)
 			runs := []string{first[i], newTreeID(&in, t), fresh[i]}
 			ridc := "None"
-			if rid != "" {
+			if rid == "bad" {
+				ridc = "(Some " + lit(nil) + ")"
+			} else if rid != "" {
 				ridc = "(Some " + litHex(rid) + ")"
 			}
 			items[i] = "((" + ridc + ", " + coqTree(kt, t.T) + "), " + coqObs(runs, nil, treeOracle(rid, t.T)) + ")"
@@ -765,7 +802,7 @@ func run(raw json.RawMessage) lib.Case {
 	distinct := map[string]bool{}
 	bad := 0
 	for _, f := range first {
-		if f == "crash" || f == "nil" {
+		if f == "crash" || f == "nil" || f == "err" {
 			bad++
 		} else {
 			distinct[f] = true
@@ -810,7 +847,7 @@ func offendingPair(in *input, first []string) (int, int, bool) {
 	byID := map[string]int{}
 	byObj := map[string]int{}
 	for i, id := range first {
-		if id == "crash" || id == "nil" {
+		if id == "crash" || id == "nil" || id == "err" {
 			continue
 		}
 		k := objectKey(in, i)
